@@ -27,7 +27,7 @@ MANIFEST = dict(
          "GeckoShell.do_snapshot + GeckoCmd.do_logfile + GeckoSnapshot.parse_log_file, against real re.search per expression, "
          "and of pyReprBytes/litEval against CPython EXHAUSTIVELY on all 256 bytes and all 65 536 ordered byte pairs. "
          "Enumeration on the implementation (not a theorem): all 34 shipped snapshot files are parsed, loaded into the real "
-         "GeckoSimulator and served to a real async and a real threaded-class client; the client block equals the parsed bytes.",
+         "GeckoSimulator and served to a real async and a real threaded-class client; the client block equals the parsed bytes. Traffic logs in segmentations from 4 to 255 bytes and uneven ones.",
     note="Trusted: Lean kernel; CPython's bytes.__repr__, ast.literal_eval, re and int() are modelled and validated by "
          "correspondence, not verified; the model's character classes are ASCII (SafeName requires printable ASCII names); "
          "the serving of shipped snapshots is an exhaustive enumeration of a finite set on the implementation "
@@ -335,6 +335,39 @@ def real_traffic_log(cap, sim, block):
     return cap.text(), ok, got
 
 
+def segmented_traffic_log(cap, block, sizes):
+    """a traffic log of a transfer in ANOTHER segmentation than the simulator's 39 bytes: each STATV datagram is built by the real
+    response constructor, framed, and received by a real (unstarted) client socket, whose own DEBUG record is what lands in the log.
+    `sizes` = segment lengths in order (their sum is the block length; at most 256 segments - the index is one byte)."""
+    from geckolib.driver import GeckoPacketProtocolHandler, GeckoStatusBlockProtocolHandler, GeckoUdpSocket
+    cs = GeckoUdpSocket(socket=MockSock())
+    cs.add_receive_handler(GeckoPacketProtocolHandler(socket=cs))
+    cap.reset()
+    logging.getLogger("geckolib.spa").info("Starting spa connection handshake...")
+    pos = 0
+    for i, n in enumerate(sizes):
+        nxt = 0 if i == len(sizes) - 1 else (i + 1) % 256
+        dg = GeckoStatusBlockProtocolHandler.response(i % 256, nxt, block[pos:pos + n], parms=(SPA_ADDR[0], SPA_ADDR[1], CLI_ID, SPA_ID)).send_bytes
+        cs.dispatch_recevied_data(dg, SPA_ADDR)
+        pos += n
+    return cap.text()
+
+
+def segmentations(rng, quick):
+    out = [("fixed-%d" % k, [k] * (1024 // k) + ([1024 % k] if 1024 % k else [])) for k in (4, 8, 15, 16, 39, 100, 255)]
+    for _ in range(2 if quick else 20):
+        sizes, left = [], 1024
+        while left:
+            n = min(left, rng.choice([1, 2, 5, 15, 39, 77, 255]))
+            if len(sizes) == 255:
+                n = min(left, 255)
+            sizes.append(n)
+            left -= n
+        if len(sizes) <= 256:
+            out.append(("uneven-%d" % len(sizes), sizes))
+    return out
+
+
 # ----------------------------------------------------------------------------------------------- generators
 NAMES = [
     "[]", "STATV</DATAS>", "Starting spa connection handshake...",       # canonical inputs of the suspected defects first
@@ -526,6 +559,26 @@ def run(ctx):
                 tblocks.append((f"random", bytes(rng.randrange(256) for _ in range(1024))))
             for i in range(4 if ctx.quick else 60):   # blocks that avoid the two known trouble makers
                 tblocks.append((f"random-safe", bytes(rng.choice([x for x in range(256) if x not in (0x22, 0x5b)]) for _ in range(1024))))
+            # ---------- the same for OTHER segmentations of the transfer (the property says: all segmentations) ----------
+            segblocks = [("counting", bytes(i % 251 for i in range(1024))), ("random", bytes(rng.randrange(256) for _ in range(1024)))]
+            for slabel, sizes in segmentations(rng, ctx.quick):
+                for blabel, blk in segblocks[: (1 if ctx.quick and not slabel.startswith("fixed-1") else 2)]:
+                    inp = {"kind": "traffic-segmentation", "block": blk.hex(), "sizes": sizes}
+                    try:
+                        text = segmented_traffic_log(cap, blk, sizes)
+                        ans, snaps, exc = real_parse_file(cap.path)
+                    except Exception as e:  # noqa
+                        ctx.violation("traffic-segmentation:raised:" + type(e).__name__, inp, "the log is written and parsed", repr(e))
+                        continue
+                    ctx.count("evaluations")
+                    ctx.hist("traffic_segmentations", slabel.split("-")[0] + (":" + slabel.split("-")[1] if slabel.startswith("fixed") else ""))
+                    if exc is not None:
+                        ctx.violation(f"traffic-segmentation:{exc_name(exc)}:{failing_handler(exc)}", inp, "the traffic log parses", repr(exc)[:200])
+                    elif not snaps or snaps[-1].bytes != blk:
+                        got = snaps[-1].bytes if snaps else b""
+                        first = next((i for i in range(min(len(got), len(blk))) if got[i] != blk[i]), min(len(got), len(blk)))
+                        ctx.violation("traffic-segmentation:wrong-bytes", inp, "the connection record reassembles to the transferred block",
+                                      {"segments": len(sizes), "reassembled_length": len(got), "first_difference_at": first})
             for label, blk in tblocks:
                 inp = {"kind": "traffic", "block": blk.hex()}
                 try:
@@ -710,6 +763,13 @@ def replay(inp):
             return True, f"{type(exc).__name__}: {exc} (in {failing_handler(exc)})"
         d = check_roundtrip(snaps, inp["name"], hdr, block)
         return d is not None, {"difference": d}
+    if kind == "traffic-segmentation":
+        with Capture() as cap:
+            blk = bytes.fromhex(inp["block"])
+            segmented_traffic_log(cap, blk, inp["sizes"])
+            ans, snaps, exc = real_parse_file(cap.path)
+            bad = exc is not None or not snaps or snaps[-1].bytes != blk
+            return bad, {"error": repr(exc)[:120] if exc else None, "reassembled_length": len(snaps[-1].bytes) if snaps else None}
     if kind == "traffic":
         block = bytes.fromhex(inp["block"])
         sim = Sim()
